@@ -286,11 +286,79 @@ def generate(repo=REPO, gen=GEN):
     out.append("def tables : Tables := { rules := rules, mappings := nodeMappings, mixedRules := mixedRules }\n")
     txt_facts = "\n".join(out) + "\nend Metapype.Gen\n"
 
+
+    # ---- witnesses: a candidate valid tree per known element, computed here by a least fixed point over the table.
+    # They are NOT trusted: Props/C10.lean checks each one with the model validator by kernel evaluation.
+    sys.path.insert(0, os.path.join(HERE, "..", "harness"))
+    import lang as _lang
+
+    def _parse(c):
+        try:
+            return _lang.parse(c)
+        except Exception:
+            return None
+    specs = {rn: _parse(d[1]) for rn, d in rules.items()}
+    INF = float("inf")
+    sys.path.insert(0, os.path.join(HERE, "..", "harness"))
+    from gen_pure import min_cost_word, canon_content, valid_attrs
+    cost, word = {}, {}
+    ch = True
+    while ch:
+        ch = False
+        for e, rn in mappings.items():
+            sp = specs.get(rn)
+            if sp is None:
+                continue
+            c, w = (0, []) if e == "metadata" else min_cost_word(sp, cost)
+            if w is not None and 1 + c < cost.get(e, INF):
+                cost[e] = 1 + c; word[e] = w; ch = True
+
+    def wit(e):
+        rn = mappings[e]
+        kids = [wit(k) for k in word[e]]
+        c = canon_content(rules[rn][2])
+        a = valid_attrs(rules[rn][0])
+        cs = "none" if c is None else f"(some {lstr(c)})"
+        return ("(.mk \"\" %s %s none none %s [] [] %s)" % (
+            lstr(e), cs, llist(["(%s, %s)" % (lstr(k), lstr(v)) for k, v in a]), llist([wit_cached(k) for k in word[e]])))
+    _wc = {}
+
+    def wit_cached(e):
+        if e not in _wc:
+            _wc[e] = wit(e)
+        return _wc[e]
+    wl = []
+    for e in mappings:
+        if e in word:
+            wl.append(f"  ({lstr(e)}, {wit_cached(e)})")
+    txt_wit = ("-- GENERATED by translator/gen_tables.py. Candidate witness trees; validity is checked by the kernel in Props/C10.lean.\n"
+               "import MetapypeModel.Model.Tree\nnamespace Metapype.Gen\nopen Metapype\n\n"
+               "def witnesses : List (String × Tree) := [\n" + ",\n".join(wl) + "\n]\n\nend Metapype.Gen\n")
+
+    # ---- known findings that weaken a full-strength theorem (generated from known_findings.json)
+    kf_path = os.path.join(HERE, "..", "known_findings.json")
+    c10 = []
+    try:
+        with open(kf_path) as f:
+            kf = json.load(f)
+        for fd in kf.get("findings", []):
+            if fd.get("property") == "C10" and fd.get("rule") and fd.get("child"):
+                c10.append((fd["rule"], fd["child"]))
+    except FileNotFoundError:
+        pass
+    txt_find = ("-- GENERATED by translator/gen_tables.py from known_findings.json. Do not edit.\n"
+                "namespace Metapype.Gen\n\n/-- (rule, child name) pairs recorded as known findings of C10 -/\n"
+                "def findingsC10 : List (String × String) := " + llist([f"({lstr(a)}, {lstr(b)})" for a, b in c10]) + "\n\nend Metapype.Gen\n")
+
     changed = []
     if write_if_changed(os.path.join(gen, "Rules.lean"), txt_rules):
         changed.append("Rules.lean")
     if write_if_changed(os.path.join(gen, "Facts.lean"), txt_facts):
         changed.append("Facts.lean")
+    if write_if_changed(os.path.join(gen, "Witness.lean"), txt_wit):
+        changed.append("Witness.lean")
+    if write_if_changed(os.path.join(gen, "Findings.lean"), txt_find):
+        changed.append("Findings.lean")
     return changed
 
 
